@@ -1,6 +1,6 @@
 (* C15 — the result is independent of the visitor; re-parsing parsed bytes is the identity.
    In the crate, [parse] IS [visit] with the empty visitor (src/visit.rs), modelled by the oracle [never]. *)
-From BS Require Import Impl.Visit Ref.MetaDefs Proofs.ImplRefLeaf Proofs.Transfer Proofs.Entries.
+From BS Require Import Impl.Visit Ref.MetaDefs Proofs.ImplRefLeaf Proofs.Transfer Proofs.Entries Proofs.Examples.
 Open Scope N_scope.
 
 (* visiting with any visitor that never breaks returns the result (and delivers the callbacks) of parse *)
@@ -16,3 +16,8 @@ Theorem C15_reparse_identity : forall E, covered E -> forall brk p b h pr h',
   e_visit E brk (sl p (bytes (e_sl E (parsed pr)))) h =
   (Ok {| remaining := sl (off (remaining pr)) []; parsed := parsed pr |}, h').
 Proof. intros E _. exact (T_exact E). Qed.
+
+(* non-vacuity: the example block is parsed; its serialized view can be fed back *)
+Example C15_example : covered E_block /\ e_D E_block (ex_block_bytes ++ ex_trailing) /\
+  exists pr h', e_visit E_block never (sl 3 (ex_block_bytes ++ ex_trailing)) [] = (Ok pr, h').
+Proof. split; [constructor|split; [exact ex_block_InLen|]]. destruct ex_block_visit as [pr [h' [H _]]]. exists pr, h'. exact H. Qed.
